@@ -76,7 +76,7 @@ def make_form(rng, i, klass):
 
 
 # ---------------------------------------------------------------------------- hostile names
-BAD_NAMES = ["rate\u00f72", "a\u00d7b", "x\u037e", "a\u2014b", "\u00b7lead", "a\u2028b", "q\u00a0r", "2nd", "a<b", "a b", "a&b", 'q"x', "x>", "-x", ".x", "a/b", "a=b", "foo:bar", "x:", ":x", "a:b:c", "1x", "é", "a\tb", "xml:lang", "a'b", "\u00c0-\u00d6]x", "q\u00c0-\u00d6]"]
+BAD_NAMES = ["rate\u00f72", "a\u00d7b", "x\u037e", "a\u2014b", "\u00b7lead", "a\u2028b", "q\u00a0r", "2nd", "a<b", "a b", "a&b", 'q"x', "x>", "-x", ".x", "a/b", "a=b", "foo:bar", "x:", ":x", "a:b:c", "1x", "é", "a\tb", "xml:lang", "a'b", "\u00c0-\u00d6]x", "q\u00c0-\u00d6]", "xmlns:xml", "xmlns:xmlns", "xmlns:", "xmlns"]
 
 
 def hostile_name_form(rng, i):
